@@ -165,7 +165,7 @@ def audit(prop):
     p = subprocess.run(['lake', 'env', 'lean', af], cwd=LEAN, capture_output=True, text=True, timeout=1800)
     out = p.stdout + p.stderr
     axioms = {}
-    for m in re.finditer(r"'CopVerif\.Props\.%s[a-z]?\.([^']+)' (depends on axioms: \[([^\]]*)\]|does not depend on any axioms)" % prop,
+    for m in re.finditer(r"'CopVerif\.Props\.%s[a-z]?\.(\S+?)' (depends on axioms: \[([^\]]*)\]|does not depend on any axioms)" % prop,
                          out, re.S):
         axs = [a.strip() for a in (m.group(3) or '').replace('\n', ' ').split(',') if a.strip()]
         axioms[m.group(1)] = axs
